@@ -840,7 +840,8 @@ class TextXVisitor(RRELVisitor):
                     new_value += "\t"
                 if " " in value:
                     new_value += " "
-                value = new_value
+                # Characters given literally are whitespaces as well.
+                value = new_value + re.sub(r"\\[nrt]| ", "", value)
 
             params[name] = value
 
